@@ -538,7 +538,12 @@ def exec_d1(ctx, mods, job, state):
         if bad:
             nm = bad[0]
             who = "o." + nm[7:] if nm.startswith("source:") else "q." + nm
-            ctx.violate(f"derived-object-stale:{dname}:{tl}",
+            key = f"derived-object-stale:{dname}:{tl}"
+            if dname.startswith("to:") and tl.startswith("derived") and mk.startswith("attr:") and nm.startswith("source:"):
+                # the attachment of a conversion the source keeps in its cache is replaced (attribute assignment on the returned
+                # object): only item assignment to it is reported back to the source
+                key = "handed-out-conversion:attachment-replaced"
+            ctx.violate(key,
                         f"{wname}: q = {dname}(o); read {ename}; change {tl} ({mk}); then {who} gave "
                         f"{show(got[0][nm])} but {show(base[0][nm])} when nothing was read before the change "
                         f"({len(bad)} of {len(compared)} reads differ)", case)
